@@ -400,7 +400,11 @@ class CallMixin:
         if getattr(self, "_inline_depth", 0) > 8:
             raise Unsupported(f"inline depth exceeded at {fdef.name}", node, self.path)
         env = self.bind_params(fdef, None, self_val, args, kwargs, m, node)
-        if self_val is not None and cls is not None and self_val.t[0] == "ref":
+        try:      # the verified text of the caller includes this body: its hash becomes part of the caller's source identity
+            if not hasattr(self, "inlined_src"):
+                self.inlined_src = set()
+            self.inlined_src.add(f"{cls or ''}.{fdef.name}:{m.sha1(fdef)}")
+        except Exception:
             pass
         env["__module__"] = m
         st.frames.append(env)
